@@ -32,7 +32,7 @@ class XmlEventWriter(XmlWriter):
         pending_prefixes: The pending element namespace prefixes
     """
 
-    __slots__ = ("current_level", "pending_end_element")
+    __slots__ = ("current_level", "mixed_levels", "pending_end_element")
 
     def __init__(self, config: SerializerConfig, output: TextIOBase, ns_map: dict):
         """Initialize the writer."""
@@ -40,6 +40,8 @@ class XmlEventWriter(XmlWriter):
 
         self.current_level = 0
         self.pending_end_element = False
+        # The levels with character data, indentation would change their text
+        self.mixed_levels: set[int] = set()
 
     def build_handler(self) -> XMLGenerator:
         """Build the content handler instance.
@@ -79,6 +81,9 @@ class XmlEventWriter(XmlWriter):
             data: The characters data to write
         """
         self.validate_characters(data)
+        if self.config.indent and data.strip():
+            self.mixed_levels.add(self.current_level)
+
         head, *rest = data.split("\r")
         self.handler.characters(head)
         for part in rest:
@@ -114,7 +119,7 @@ class XmlEventWriter(XmlWriter):
         super().start_tag(qname)
 
         if self.config.indent:
-            if self.current_level:
+            if self.current_level and self.current_level not in self.mixed_levels:
                 self.handler.ignorableWhitespace("\n")
                 self.handler.ignorableWhitespace(
                     self.config.indent * self.current_level
@@ -140,10 +145,13 @@ class XmlEventWriter(XmlWriter):
             super().end_tag(qname)
             return
 
+        content_level = self.current_level
         self.current_level -= 1
-        if self.pending_end_element:
+        if self.pending_end_element and content_level not in self.mixed_levels:
             self.handler.ignorableWhitespace("\n")
             self.handler.ignorableWhitespace(self.config.indent * self.current_level)
+
+        self.mixed_levels.discard(content_level)
 
         super().end_tag(qname)
 
